@@ -547,6 +547,23 @@ func c03(c *Ctx) {
 			}
 			r.Check(okP && okV, "C03.R5", "placeholder re-pointed in "+shortName(f), p.Pos(posOf(cs)), "CreateFuncForCodePtr(placeholder, guard.FixOriginFunc())",
 				"the placeholder variable is not re-pointed at the relocated code of the same patch")
+			// … and on the side of a validity test of the placeholder where it IS valid
+			okSide := true
+			for _, g := range guardsAt(cs.Block()) {
+				gc, isCall := g.Cond.(*ssa.Call)
+				if !isCall {
+					continue
+				}
+				cal := staticCallee(gc.Common())
+				if cal == nil || relPkg(cal) != "internal/bytecode" || len(gc.Call.Args) != 1 || !isBool(cal.Signature.Results().At(0).Type()) {
+					continue
+				}
+				if resolveLocal(gc.Call.Args[0]) == resolveLocal(callCommon(cs).Args[0]) && !g.Pol {
+					okSide = false
+				}
+			}
+			r.Check(okSide, "C03.R5", "placeholder re-pointed when it is valid in "+shortName(f), p.Pos(posOf(cs)), "not on the failing side of the placeholder's validity test",
+				"the placeholder is re-pointed only when it is NOT a usable pointer and left alone when it is: a valid origin placeholder keeps its own body and never runs the original")
 		}
 	}
 	// CreateFuncForCodePtr stores the code pointer into a fresh func value and assigns it through the pointer
